@@ -47,10 +47,20 @@ def flatten_ints(text):
         else: out.append(int(m.group(4)))
     return out
 
+def _as_stored(ty, v):
+    """value of the initialiser after conversion to the declared type of the object (x86-64: char is signed, 8 bits)"""
+    if ty == 'char': return ((v + 128) & 0xff) - 128
+    if ty == 'bool': return int(v != 0)
+    if ty == 'unsigned int': return v & 0xffffffff
+    if ty == 'int': return ((v + 2**31) & 0xffffffff) - 2**31
+    return v
+
 def defines(src):
     d = {}
     for m in re.finditer(r'^#define (YY_[A-Z_]+) (-?\d+)\s*$', src, re.M): d[m.group(1)] = int(m.group(2))
-    for m in re.finditer(r'^(?:static )?const (?:int|unsigned int|char|flex_\w+|bool) (YY_[A-Z_]+|yy[A-Za-z]+) = (-?\d+);', src, re.M): d[m.group(1)] = int(m.group(2))
+    # constants the c99-style back ends emit as typed objects hold the value as converted to that type, not as written
+    for m in re.finditer(r'^(?:static )?const (int|unsigned int|char|flex_\w+|bool) (YY_[A-Z_]+|yy[A-Za-z]+) = (-?\d+);', src, re.M):
+        d[m.group(2)] = _as_stored(m.group(1), int(m.group(3)))
     return d
 
 class TableDFA:
